@@ -57,7 +57,7 @@ struct EpHarness : Harness {
     std::vector<std::string> props() const override { return {"C17"}; }
     std::vector<std::string> probes(const std::string &) const override {
         return {"eintr_retried", "eagain_retried", "zero_return_retried", "partial_then_rest", "hard_error_after_prefix", "octet_driver_through_chunk_api",
-                "chunk_driver_through_octet_api", "aux_smaller_than_n_multiple_rounds", "drain_end_mid_chunk", "drain_to_end_of_stream", "invalid_count_refused", "source_lends_its_buffer", "stream_in_library_buffer_source", "stream_in_library_chunk_source", "output_in_library_buffer_sink", "chunk_list_with_empty_chunk", "trivial_endpoint", "endpoints_from_static_initialisers", "second_plumbing_job_during_a_sink_call", "auxiliary_buffer_is_the_sources_own_buffer", "count_of_64k_octets_or_more_really_moved", "huge_transfer_in_one_call", "huge_transfer_in_pieces", "huge_piece_of_4gib_or_more"};
+                "chunk_driver_through_octet_api", "aux_smaller_than_n_multiple_rounds", "drain_end_mid_chunk", "drain_to_end_of_stream", "invalid_count_refused", "source_lends_its_buffer", "stream_in_library_buffer_source", "stream_in_library_chunk_source", "output_in_library_buffer_sink", "chunk_list_with_empty_chunk", "chunk_list_with_nulled_chunk", "trivial_endpoint", "endpoints_from_static_initialisers", "second_plumbing_job_during_a_sink_call", "auxiliary_buffer_is_the_sources_own_buffer", "count_of_64k_octets_or_more_really_moved", "huge_transfer_in_one_call", "huge_transfer_in_pieces", "huge_piece_of_4gib_or_more"};
     }
     uint64_t runs(const std::string &, const Tier &t) const override { return t.thorough() ? 12000000 : 3000000; }
     unsigned time_limit(const Json &plan) const override { const Json &ops = plan.get("ops"); for (size_t i = 0; i < ops.size(); ++i) if (ops.at(i).gets("op") == "n_cbc_long") return 1500; return 60; }
@@ -239,6 +239,7 @@ struct EpHarness : Harness {
                     if (take < 0) take = 0; if ((size_t)take > total - at) take = (int64_t)(total - at); if (pre < 0) pre = 0; if (pre > 8) pre = 8; if (fre < 0) fre = 0; if (fre > 8) fre = 8;
                     add_buf((size_t)take, (size_t)pre, (size_t)fre);
                     if (take == 0) COUNT("probe.chunk_list_with_empty_chunk");
+                    if (take == 0 && pre == 0 && fre == 3) { byte_buffer_null(&bufs.back()); COUNT("probe.chunk_list_with_nulled_chunk"); }   // an empty chunk whose owner released it
                 }
                 if (at < total) add_buf(total - at, 0, 0);
             }
@@ -267,6 +268,7 @@ struct EpHarness : Harness {
             run_op(R, o);
             c.ev(EV_NOTE, oi, R.src.pos, R.snk.got.size());
             if (R.src.inner_overrun) { c.fail("realsource.overrun", "the library's buffer source handed out more than asked for / more than the stream holds"); break; }
+            if (R.src.inner_failed) { c.fail("realsource.failed", "the library's buffer / chunk source returned %d although %zu octets of the stream are still in its buffers", R.src.inner_failed, R.src.data.size() - R.src.pos); break; }
         }
         if (plan.has("rsnk") && c.viol.empty() && !bytes_eq(snkbuf.data, R.snk.got.data(), R.snk.got.size() < snkbuf.size ? R.snk.got.size() : snkbuf.size)) c.fail("realsink.content", "the library's buffer sink changed octets it had stored earlier");
         if (plan.has("rsnk") && c.viol.empty()) { for (auto &b : blocks) if (b->p == snkbuf.data && !b->unchanged_outside(0, snkbuf.used <= snkbuf.size ? snkbuf.used : snkbuf.size)) c.fail("realsink.bounds", "the library's buffer sink wrote outside its filled region"); }
